@@ -24,6 +24,44 @@ pub struct Oracle {
     /// whose IMAGE under jump / long_jump is structured
     pub j_inv: Option<Mat>,
     pub l_inv: Option<Mat>,
+    /// T^n, n = number of state bits = number of single steps jump()/long_jump() make
+    /// internally while they accumulate the new state (None in interpreter runs)
+    pub tn: Option<Mat>,
+}
+
+/// A state with a WORD COINCIDENCE: word `i` of A·s equals word `i` of B·s, for
+/// (A, B) in {jump, long_jump} x {T^n (where the internal stepping of the jump leaves
+/// the generator just before the new state is installed), identity (the word the
+/// jump does not change)}. One 32/64-bit linear condition, 2^-64 for random states:
+/// solved on the observed matrices. Caches keyed on part of the state, installs that
+/// compare old and new words, "unchanged" shortcuts live exactly here.
+pub fn coincidence_state(o: &Oracle, seed_len: usize, wb: usize, p: &mut Prng) -> Option<(Vec<u8>, &'static str)> {
+    let tn = o.tn.as_ref()?;
+    let n = seed_len * 8;
+    let (a, an) = if p.chance(1, 2) { (&o.j, "jump") } else { (&o.l, "long_jump") };
+    let vs_steps = p.chance(2, 3);
+    let d = if vs_steps { a.add(tn) } else { a.add(&Mat::identity(n)) };
+    let words = seed_len / wb;
+    // one word, sometimes two
+    let mut rows: Vec<usize> = Vec::new();
+    let w0 = p.below(words as u64) as usize;
+    rows.extend(w0 * wb * 8..(w0 + 1) * wb * 8);
+    if words > 2 && p.chance(1, 4) {
+        let w1 = (w0 + 1 + p.below(words as u64 - 1) as usize) % words;
+        rows.extend(w1 * wb * 8..(w1 + 1) * wb * 8);
+    }
+    let basis = d.kernel_on_rows(&rows);
+    if basis.is_empty() { return None; }
+    let mut v = BitVec::zero(n);
+    for b in &basis { if p.chance(1, 2) { v.xor_in(b); } }
+    if v.is_zero() { v = basis[p.below(basis.len() as u64) as usize].clone(); }
+    let name = match (an, vs_steps) {
+        ("jump", true) => "coincidence:jump_vs_n_steps",
+        ("jump", false) => "coincidence:jump_vs_unchanged",
+        (_, true) => "coincidence:long_jump_vs_n_steps",
+        _ => "coincidence:long_jump_vs_unchanged",
+    };
+    Some((v.to_bytes(), name))
 }
 
 static ORACLES: OnceLock<Mutex<HashMap<usize, std::sync::Arc<Oracle>>>> = OnceLock::new();
@@ -47,7 +85,7 @@ pub fn oracle_for(ti: usize, r: &mut Report) -> std::sync::Arc<Oracle> {
             Some(Mat { n, cols })
         };
         if let (Some(t), Some(j), Some(l)) = (mat("t"), mat("j"), mat("l")) {
-            let o = std::sync::Arc::new(Oracle { t, j, l, zero_fixed: true, j_inv: None, l_inv: None });
+            let o = std::sync::Arc::new(Oracle { t, j, l, zero_fixed: true, j_inv: None, l_inv: None, tn: None });
             m.lock().unwrap().insert(ti, o.clone());
             return o;
         }
@@ -58,7 +96,8 @@ pub fn oracle_for(ti: usize, r: &mut Report) -> std::sync::Arc<Oracle> {
         let j = t.pow2k(n / 2);
         let l = j.pow2k(n / 4); // 2^(n/2) * 2^(n/4) squarings = T^(2^(3n/4))
         let (j_inv, l_inv) = (j.inverse(), l.inverse());
-        std::sync::Arc::new(Oracle { t, j, l, zero_fixed: z.is_zero(), j_inv, l_inv })
+        let tn = Some(t.pow2k(n.trailing_zeros()));
+        std::sync::Arc::new(Oracle { t, j, l, zero_fixed: z.is_zero(), j_inv, l_inv, tn })
     });
     m.lock().unwrap().insert(ti, o.clone());
     o
@@ -146,6 +185,15 @@ fn case_typed<S: Spec>(ti: usize, sub: &str, id: u64, r: &mut Report) {
             let (class, mut s) = gen_seed(&mut p, S::SEED_LEN, wb, false);
             // a quarter of the states are pre-images: jump(s) or long_jump(s) IS the structured state
             let pre = p.below(8);
+            let mut coincidence: Option<&'static str> = None;
+            if pre == 2 {
+                if let Some((v, name)) = coincidence_state(&o, S::SEED_LEN, wb, &mut p) {
+                    s = v;
+                    coincidence = Some(name);
+                    r.cov(name);
+                    r.cov("coincidence_states");
+                }
+            }
             if pre < 2 {
                 if let Some(inv) = if pre == 0 { &o.j_inv } else { &o.l_inv } {
                     let v = inv.apply(&BitVec::from_bytes(&s)).to_bytes();
@@ -156,7 +204,7 @@ fn case_typed<S: Spec>(ti: usize, sub: &str, id: u64, r: &mut Report) {
                 }
             }
             // mid-history states: advance the generator a little first
-            let how = if pre >= 2 && p.chance(1, 3) {
+            let how = if let Some(name) = coincidence { name } else if pre >= 2 && p.chance(1, 3) {
                 let mut g = inject::<S>(&s);
                 for _ in 0..p.range(1, 40) {
                     native_step::<S>(&mut g);
@@ -392,6 +440,7 @@ pub fn run(ctx: &Ctx, only: Option<&Only>) -> Report {
         total.floor(&format!("first_call_race:{}", TYPE_NAMES[ti]), 4);
     }
     total.floor("preimage_of_structured_under_jump", 500);
+    total.floor("coincidence_states", 500);
     total.note("inference: the real step agreed with the observed matrix T on every linearity observation counted in linearity_obs:*; jump/long_jump agree with T^(2^(n/2)) / T^(2^(3n/4)) on all n basis states, hence (by linearity of both sides) on every state consistent with those observations".into());
     total
 }
